@@ -543,7 +543,8 @@ def _write_ds(path, s, idx):
     """one .rtdc input from a DS spec (plus `<stem>_basin.rtdc` for a file basin)"""
     n = s["n"]
     m = meta(experiment={"time": f"12:{(idx * 7) % 60:02d}:0{idx % 10}",
-                         "run index": idx + 1,
+                         # never 1: join overwrites it with its default metadata
+                         "run index": idx + 2 + s["seed"] % 3,
                          "run identifier": f"vf-rid-{idx}"})
     if "trace" in s["feats"]:
         m["fluorescence"] = {"sample rate": 312500.0, "bit depth": 16,
@@ -691,6 +692,7 @@ class Setup:
         self.outs = []            # expected output paths (work), known after golden
         self.temps = []
         self.out_arg = None
+        self.first_part_skipped = False
 
     def w(self, rel):
         return self.work / rel
@@ -739,6 +741,13 @@ def _build(spec, su):
         su.out_arg = None if od == "same" else pathlib.Path(od)
         odir = pathlib.Path("in") if od == "same" else pathlib.Path(od)
         outs = [odir / f"{su.inputs[0].stem}_{i + 1:04d}.rtdc" for i in range(nfiles)]
+        ds0 = spec["inputs"][0]
+        if (spec["opts"]["skip"] and ds0["zero_first"] and "image" in ds0["feats"]
+                and su.split_events == 1):
+            # documented boundary skipping: the first event (all-zero image) is removed;
+            # a part that consisted of this event only has nothing to export
+            outs = outs[1:]
+            su.first_part_skipped = True
     su.outs = outs
     su.temps = [p.with_suffix(".rtdc~") for p in outs]
     # stale files
@@ -748,7 +757,7 @@ def _build(spec, su):
         _tiny_valid(tiny)
         raw = tiny.read_bytes()
         garbage = raw[: int(len(raw) * 0.6)]
-        targets_out = outs if task != "split" else [outs[0], outs[-1]]
+        targets_out = outs if task != "split" else sorted({outs[0], outs[-1]} if outs else [])
         if st_.get("out"):
             for p in targets_out:
                 (su.base / p).parent.mkdir(parents=True, exist_ok=True)
@@ -998,7 +1007,7 @@ def _resolve_points(points, trace, rerun_bits):
                     cand.append(("persist", k))
         for j, (mode, k) in enumerate(cand):
             if j % m == i:
-                add(mode, k, rerun_bits[j % len(rerun_bits)])
+                add(mode, k, rerun_bits[(j // m + i) % len(rerun_bits)])
         return out
     for j, pt in enumerate(points):
         mode = pt[0]
@@ -1032,6 +1041,8 @@ def _run(spec, rec, d):
     with quiet(), chunk_bytes(spec.get("chunk")):
         _build(spec, su)
     rec.cls(f"task:{task}")
+    if su.first_part_skipped:
+        rec.cls("split:first-part-emptied-by-boundary-skip")
     for rel, kind in su.stale.items():
         rec.cls("stale:temp" if kind == "temp" else f"stale:out-{kind}")
 
@@ -1058,8 +1069,8 @@ def _run(spec, rec, d):
 
     # ---- fault points
     pts = _resolve_points(spec["points"], trace, spec.get("rerun") or [False])
+    done = set()
     for mode, k, rerun in pts:
-        _restore(su.base, su.work)
         if mode == "persist":
             # the first failing operation is the first data-writing one at or after k
             nxt = [j + 1 for j in range(k - 1, K) if trace[j][0] in DATA_KINDS]
@@ -1067,8 +1078,12 @@ def _run(spec, rec, d):
                 rec.skip("persist-point-without-later-write")
                 continue
             k = nxt[0]
+        if (mode, k) in done:
+            continue
+        done.add((mode, k))
         kind, role, _ = trace[k - 1]
         tag = f"{task}/{mode}/at-{kind}-{role}"
+        _restore(su.base, su.work)
         if mode == "kill":
             tr, fired, status = _run_killed(su, k)
             fexc = None
